@@ -1,35 +1,23 @@
 #!/usr/bin/env python3
-"""Apply each behaviour-preserving twin to /repo, run ALL quick checks, undo.  Any exit != 0 is a false alarm."""
-import os, subprocess, sys
-ROOT = "/verif"
-sys.path.insert(0, ROOT)
-def sh(cmd, cwd=None):
-    p = subprocess.run(cmd, cwd=cwd, capture_output=True, text=True)
-    return p.returncode, p.stdout + p.stderr
+"""Apply each behaviour-preserving twin to a scratch clone of /repo and run ALL quick checks.  Any exit != 0 is a false alarm.
+usage: try_twins.py [twin ids or property ids ...]"""
+import os, sys
+sys.path.insert(0, "/verif/tools"); sys.path.insert(0, "/verif")
+from _variants import ROOT, run_all
 from sa import props as P
 claimed = sorted(P.PROPS)
 sel = [a for a in sys.argv[1:] if not a.startswith("--")]
 twins = sorted(d for d in os.listdir(f"{ROOT}/twins") if os.path.isdir(f"{ROOT}/twins/{d}"))
 if sel:
     twins = [t for t in twins if t in sel or t.split("_")[0] in sel]
-rc, out = sh(["git", "status", "--porcelain", "--untracked-files=no"], "/repo")
-assert not out.strip(), "repo dirty"
-for t in twins:
-    rc, out = sh(["git", "apply", f"{ROOT}/twins/{t}/patch.diff"], "/repo")
-    if rc != 0:
-        print(f"{t}: patch does not apply"); sh(["git", "checkout", "--", "."], "/repo"); continue
-    alarms = []
-    try:
-        for pid in claimed:
-            rc, out = sh([f"{ROOT}/check", pid, "quick"], ROOT)
-            if rc != 0:
-                lines = [l for l in out.splitlines() if l.startswith(("  ", "ANALYSIS-ERROR"))]
-                alarms.append((pid, rc, lines[:3]))
-    finally:
-        sh(["git", "checkout", "--", "."], "/repo")
-    print(f"{t}: {'SILENT' if not alarms else 'ALARM'}")
+bad = 0
+for vid, res, err in run_all([("twin", t, f"{ROOT}/twins/{t}/patch.diff", claimed) for t in twins]):
+    if err:
+        print(f"{vid}: {err}"); bad += 1; continue
+    alarms = [(pid, rc, [l for l in out.splitlines() if l.startswith(("  ", "ANALYSIS-ERROR"))][:3]) for pid, (rc, out) in res.items() if rc != 0]
+    print(f"{vid}: {'SILENT' if not alarms else 'ALARM'}")
+    bad += bool(alarms)
     for pid, rc, lines in alarms:
         for l in lines:
             print(f"     {pid} rc={rc} {l[:300]}")
-rc, out = sh(["git", "status", "--porcelain", "--untracked-files=no"], "/repo")
-assert not out.strip(), "repo left dirty!"
+print(f"{len(twins)} twins, {bad} with alarms")
